@@ -39,6 +39,7 @@ constants folded from the source.
 from __future__ import annotations
 
 import ast
+import datetime as _dtm
 import itertools
 import re
 import typing as t
@@ -2248,7 +2249,11 @@ class _Cnt(Exception):
     pass
 
 
-_NATIVE_TYPES = (str, bytes, bytearray, int, float, list, dict, tuple, set, frozenset, range, type({}.items()), type({}.keys()), type({}.values()))
+# values of the datetime module are immutable constants to the Machine, like int / str: their operations are CPython's
+_DT_TYPES = (_dtm.date, _dtm.time, _dtm.timedelta, _dtm.tzinfo)  # datetime is a date
+_NATIVE_TYPES = (str, bytes, bytearray, int, float, list, dict, tuple, set, frozenset, range, type({}.items()), type({}.keys()), type({}.values())) + _DT_TYPES
+# constants of the standard library that are read as attributes of a class / module
+_EXT_VALUES: dict[str, t.Any] = {"datetime.timezone.utc": _dtm.timezone.utc, "datetime.UTC": _dtm.timezone.utc}
 _MACHINE_OBJECTS = (Obj, Fn, Cls, ModRef, Ext, Native, SuperRef, Closure, ExcVal)
 _BIN = {
     ast.Add: lambda a, b: a + b, ast.Sub: lambda a, b: a - b, ast.Mult: lambda a, b: a * b, ast.Div: lambda a, b: a / b, ast.FloorDiv: lambda a, b: a // b,
@@ -2295,6 +2300,8 @@ _EXT_PURE = {
     "urllib.request.parse_http_list", "base64.b64encode", "base64.b64decode", "re.escape", "re.sub", "re.match", "re.fullmatch", "re.search", "re.split", "re.findall",
     "operator.itemgetter", "itertools.chain", "itertools.islice", "itertools.chain.from_iterable", "itertools.takewhile", "itertools.dropwhile",
     "itertools.filterfalse", "itertools.starmap", "itertools.zip_longest", "itertools.accumulate", "itertools.compress", "itertools.pairwise", "functools.reduce",
+    "datetime.datetime", "datetime.date", "datetime.time", "datetime.timedelta", "datetime.timezone", "datetime.datetime.combine", "datetime.datetime.fromisoformat",
+    "email.utils.format_datetime", "email.utils.parsedate_to_datetime", "email.utils.parsedate_tz", "email.utils.parsedate", "email.utils.mktime_tz", "calendar.timegm",
 }  # fmt: skip
 # iterators of the standard library are materialised (their sources are finite here and their callables pure): a
 # sequence with the same elements in the same order.  What only an iterator can do - next() - is refused on them.
@@ -2398,7 +2405,7 @@ class Machine:
 
     def value_of_fq(self, fq: str) -> t.Any:
         if not fq.startswith("werkzeug"):
-            return Ext(fq)
+            return _EXT_VALUES[fq] if fq in _EXT_VALUES else Ext(fq)
         if fq in self._const:
             return self._const[fq]
         if fq in self.repo.modules:
@@ -2503,7 +2510,8 @@ class Machine:
         if isinstance(v, ModRef):
             return self.value_of_fq(self.repo.canonical(f"{v.name}.{name}"))
         if isinstance(v, Ext):
-            return Ext(self.repo.canonical(f"{v.fq}.{name}"))
+            fq = self.repo.canonical(f"{v.fq}.{name}")
+            return _EXT_VALUES[fq] if fq in _EXT_VALUES else Ext(fq)
         if isinstance(v, ExcVal):
             if name == "args":
                 return v.args
@@ -2523,6 +2531,8 @@ class Machine:
                 self.raise_(AttributeError, f"{type(v).__name__!r} object has no attribute {name!r}")
             if isinstance(v, (int, float)) and name in ("real", "imag", "numerator", "denominator"):
                 return getattr(v, name)
+            if isinstance(v, _DT_TYPES) and not callable(getattr(v, name)):
+                return getattr(v, name)  # year, second, microsecond, tzinfo, days ...: data of an immutable value
             return Native(v, name)
         raise NotModelled(f"attribute {name} of {type(v).__name__}")
 
@@ -2585,6 +2595,10 @@ class Machine:
         for a in list(args) + list(kwargs.values()):
             if isinstance(a, (Obj, ExcVal, ModRef, SuperRef)) and not (isinstance(recv, (list, dict, set)) and f.name in ("append", "add", "insert", "setdefault", "get", "pop", "remove", "index", "count", "extend", "update", "discard")):
                 raise NotModelled(f"{type(recv).__name__}.{f.name} applied to an instance")
+        if isinstance(recv, _dtm.datetime) and recv.tzinfo is None and f.name in ("astimezone", "timestamp"):
+            raise NotModelled(f"datetime.{f.name} of a naive value depends on the time zone of the host")
+        if isinstance(recv, (_dtm.datetime, _dtm.date)) and f.name in ("today", "now", "utcnow", "fromtimestamp", "utcfromtimestamp", "strftime", "ctime"):
+            raise NotModelled(f"datetime.{f.name} depends on the clock / locale of the host")
         if isinstance(recv, str) and f.name in ("format", "format_map"):
             for a in list(args) + list(kwargs.values()):
                 if not isinstance(a, (str, int, float, type(None), bool)):
